@@ -17,7 +17,7 @@ import time
 
 from .. import failsym, mapgen, mapsym, pipegen
 from ..coqlit import Err, cbool, clist, cnat, cstr
-from ..exc_types import KINDS, exc_desc
+from ..exc_types import KINDS, exc_desc, make_exc
 from ..symfuncs import FileLog, ListLog, canon
 
 PROP = "C13"
@@ -47,7 +47,9 @@ RULE = ("pipelines of harness/pipegen.py (1..5 structural functions; every outpu
         "first/middle/last invocation x every kind x explicit ProcessPoolExecutor / parallel=True / map_async, user "
         "functions as non-importable closures), and a slow-earlier-element set (sync map and map_async on a 4-worker "
         "thread pool, an earlier element of the failing function sleeps 0.4 s while the first/middle/last element "
-        "raises at once, every kind); thorough adds "
+        "raises at once, every kind), and histories (two failing calls on one pipeline object sharing ONE exception "
+        "instance: pipeline(...)/run/func, map sequential and thread pool; failing maps RESUMED with cleanup=False "
+        "after an earlier failure at element >= 1, dict / file_array / shared_memory_dict); thorough adds "
         "map(executor=ProcessPoolExecutor), map(parallel=True) with pipefunc's own pool, map_async with thread and "
         "process pools, and every kind for every invocation (quick rotates the kinds); + a few runs without failure; "
         "non-trivial = >= 2 invocations in the run; distinct by (pipeline/request, failing invocation, kind, entry)")
@@ -68,7 +70,17 @@ ASSUMPTIONS = [
     "compared as a multiset there; real interleavings inside a generation are sampled, not proved",
     "'completed before the failure' = invocations logged before the failing one (sequential) / invocations of "
     "earlier generations (executor); 'loadable' = load_outputs on the run folder returns the element",
-    "fresh Pipeline object per case (ErrorSnapshot is 'last failure of that function in this process')",
+    "fresh Pipeline object per case (ErrorSnapshot is 'last failure of that function in this process'), except the "
+    "HISTORY cases: an earlier failing call / sequential map on the same pipeline raises the SAME exception instance "
+    "as the observed one; add_note appends, so the instance then carries the older notes too: 'annotated with the "
+    "failing function's name and the keyword arguments of the failing invocation' is read as 'the annotation added "
+    "by THIS failure -- the LAST note -- names this invocation' (older notes may precede it); after a failure in "
+    "another function Pipeline.error_snapshot is by design that older snapshot, so only the failing function's own "
+    "snapshot is judged there",
+    "RESUMED failing maps (cleanup=False on the run folder of an earlier failed sequential run; the observed run "
+    "executes only the missing part of the index space, not starting at 0) are judged as ONE run failing at the "
+    "observed invocation: call log = completed calls of the first run + calls of the resumed run, store = what "
+    "load_outputs returns afterwards, element by element against the model; fixed_indices are not modelled",
     "storage='shared_memory_dict' is only explored with parallel=False and with pipefunc's own pool: with a "
     "caller-owned executor, tasks of the failing generation may still be running when map raises and persists the "
     "shared dict, so the persisted content of THAT generation is timing dependent (nothing is claimed about it)",
@@ -131,8 +143,10 @@ def _repro(sn):
     return ["returned"]
 
 
-def _snap_obs(pl, ffn, cn, sort_kwargs=True):
-    """ErrorSnapshot exposed by the failing function AND by the pipeline (the same object)."""
+def _snap_obs(pl, ffn, cn, sort_kwargs=True, history=False):
+    """ErrorSnapshot exposed by the failing function AND by the pipeline (the same object).
+    history=True (an earlier call on the same pipeline failed in ANOTHER function): Pipeline.error_snapshot is by
+    design the snapshot of the first function that has one, so only the failing function's own snapshot is observed."""
     from pipefunc import ErrorSnapshot
 
     funcs = [f for f in pl.functions if f.__name__ == ffn]
@@ -140,7 +154,7 @@ def _snap_obs(pl, ffn, cn, sort_kwargs=True):
     ps = pl.error_snapshot
     if fs is None and ps is None:
         return ["nosnap"]
-    if fs is None or ps is not fs:
+    if fs is None or (ps is not fs and not (history and ps is not None)):
         return ["snap-mismatch", fs is not None, ps is not None]
     r1 = _repro(fs)
     fd, path = tempfile.mkstemp(prefix="verif_snap_", dir=TMP_BASE)
@@ -179,6 +193,16 @@ def _run_pipe(c):
         return ["bad-case"]
     o, kw, full, entry = c["o"], dict(c["kw"]), c["full"], c["entry"]
     exc, val = None, None
+    pre = c.get("prelude")
+    if pre:
+        # a history: an earlier call on the SAME pipeline fails in another invocation, raising the SAME exception
+        # instance that the observed call raises
+        shared = make_exc(c["exc"])
+        failsym.retarget(pl, pre["tgt"], shared)
+        with contextlib.suppress(Exception), contextlib.redirect_stdout(sink):
+            pl.run(o, kwargs=kw) if pre.get("entry", 1) == 1 else pl(o, **kw)
+        log.clear()
+        failsym.retarget(pl, c["tgt"], shared)
     try:
         with failsym.time_limit(TIMEOUT_S), contextlib.redirect_stdout(sink):
             if entry == 0:
@@ -197,17 +221,18 @@ def _run_pipe(c):
         note = ["notes", 0]
     else:
         res = _exc_obs(exc, c["exc"])
-        note = failsym.notes_obs(exc, canon) if getattr(exc, "__notes__", None) else ["notes", 0]
-    return [res, note, lines, _snap_obs(pl, c["ffn"], canon)]
+        note = failsym.notes_obs(exc, canon, last=bool(pre)) if getattr(exc, "__notes__", None) else ["notes", 0]
+    return [res, note, lines, _snap_obs(pl, c["ffn"], canon, history=bool(pre))]
 
 
 # ------------------------------------------------------------------ implementation driver: map
-def _map_call(pl, c, folder):
+def _map_call(pl, c, folder, cleanup=True):
     from concurrent.futures import ProcessPoolExecutor, ThreadPoolExecutor
 
     req, mode = c["req"], c["mode"]
     inputs = mapsym.map_inputs(req)
-    kw = {"run_folder": folder, "internal_shapes": mapsym.internal_arg(req), "storage": req["storage"]}
+    kw = {"run_folder": folder, "internal_shapes": mapsym.internal_arg(req), "storage": req["storage"],
+          "cleanup": cleanup}
     if mode.endswith("sub"):
         kw["output_names"] = {o for f in req["funcs"] for o in f["outs"]}
         mode = _base(mode)
@@ -275,26 +300,43 @@ def _run_map_body(c, tmp, limit):
     except Exception:  # noqa: BLE001
         return ["bad-case"]
     exc = None
+    pre = c.get("prelude")
+    kept = []
+    if pre:
+        # a history: an earlier SEQUENTIAL map of the same pipeline fails in another invocation, raising the SAME
+        # exception instance.  resume=False: in another run folder (only the exception instance is shared).
+        # resume=True: in THIS run folder, and the observed run resumes it (cleanup=False): it runs only the part of
+        # the index space that is still missing; its call log is prefixed with the calls of the first run that
+        # completed, so that (log, store) are those of ONE run failing at the observed invocation.
+        shared = make_exc(c["exc"])
+        failsym.retarget(pl, pre["tgt"], shared)
+        with contextlib.suppress(Exception), contextlib.redirect_stdout(sink), contextlib.redirect_stderr(sink):
+            pl.map(mapsym.map_inputs(req), run_folder=folder if pre.get("resume") else os.path.join(tmp, "run0"),
+                   internal_shapes=mapsym.internal_arg(req), storage=req["storage"], parallel=False)
+        kept = log.read()[:-1] if pre.get("resume") else []
+        log.clear()
+        failsym.retarget(pl, c["tgt"], shared)
     try:
         with contextlib.ExitStack() as stack:
             if limit:
                 stack.enter_context(failsym.time_limit(limit))
             stack.enter_context(contextlib.redirect_stdout(sink))
             stack.enter_context(contextlib.redirect_stderr(sink))
-            _map_call(pl, c, folder)
+            _map_call(pl, c, folder, cleanup=not (pre and pre.get("resume")))
     except failsym.HarnessTimeout:
         return Err("Timeout")
     except (Exception, asyncio.CancelledError) as e:  # noqa: BLE001  (CancelledError is a BaseException)
         exc = e
-    lines = log.read()
+    lines = kept + log.read()
     if not _effectively_sequential(c):
         lines = sorted(lines)
     if exc is None:
         res, note = ["ok"], ["notes", 0]
     else:
         res = _exc_obs(exc, c["exc"])
-        note = failsym.notes_obs(exc, mapsym.canon) if getattr(exc, "__notes__", None) else ["notes", 0]
-    snap = _snap_obs(pl, c["ffn"], mapsym.canon)     # process pools: nothing is set in this process
+        note = (failsym.notes_obs(exc, mapsym.canon, last=bool(pre)) if getattr(exc, "__notes__", None)
+                else ["notes", 0])
+    snap = _snap_obs(pl, c["ffn"], mapsym.canon, history=bool(pre))   # process pools: nothing is set in this process
     by_name = {f["name"]: f for f in req["funcs"]}
     store = _stored_obs([o for g in c["gens"] for n in g for o in by_name[n]["outs"]], folder)
     return [res, note, lines, snap, store]
@@ -558,19 +600,99 @@ def _gen_slow_earlier(rng, n_req):
     return cases
 
 
+def _gen_histories(rng, n_pipe, n_req):
+    """Histories of TWO failing calls on the same pipeline object that raise ONE shared exception instance (a
+    module-level sentinel error / a remembered error raised again); the second failure is the observed one and is
+    judged against ITS OWN invocation.  pipeline(...), run, func; map sequential and thread pool.
+    For maps additionally RESUMED runs: the first (sequential) run fails at element a >= 1 of a mapped function, the
+    observed run resumes the same run folder (cleanup=False) -- it runs only the missing part of the index space,
+    which does not start at 0 -- and fails at a later element b; storages dict / file_array (/ shared_memory_dict,
+    sequential)."""
+    cases = []
+    sink = io.StringIO()
+    done = tries = 0
+    while done < n_pipe and tries < 100 * n_pipe:
+        tries += 1
+        pd = pipegen.gen_pipeline(rng, nmax=5)
+        o = rng.choice(pipegen.outputs_of(pd))
+        log = ListLog()
+        try:
+            with contextlib.redirect_stdout(sink):
+                pl = failsym.build_pipe(pd, log)
+                kw = [[n, pipegen.value_for(rng, n)] for n in pl.root_args(o)]
+                pl(o, **dict(kw))
+        except Exception:  # noqa: BLE001
+            continue
+        calls = log.read()
+        if len(calls) < 2:
+            continue
+        done += 1
+        for k, kind in enumerate(KINDS):
+            a, b = rng.sample(range(len(calls)), 2)
+            entry = [0, 1, 2, 1][k]
+            cases.append({"kind": "pipe", "p": pd, "o": o, "kw": kw, "full": False, "entry": entry, "tgt": calls[b],
+                          "ffn": calls[b].split("(", 1)[0], "exc": kind, "ncalls": len(calls), "idx": b,
+                          "prelude": {"tgt": calls[a], "entry": k % 2}})
+    done = tries = 0
+    while done < n_req and tries < 300 * n_req:
+        tries += 1
+        req = mapgen.gen_request(rng, max_funcs=2, max_size=3)
+        if mapgen.request_size(req) > 9:
+            continue
+        try:
+            gens, calls, _ = _probe_request(req)
+        except Exception:  # noqa: BLE001
+            continue
+        if len(calls) > 9 or len(set(calls)) != len(calls):
+            continue
+        by_func = {}
+        for ln in calls:
+            by_func.setdefault(ln.split("(", 1)[0], []).append(ln)
+        fn, mine = max(by_func.items(), key=lambda kv: len(kv[1]))
+        if len(mine) < 3:
+            continue
+        done += 1
+        pairs = sorted({(1, 2), (1, len(mine) - 1), (max(1, len(mine) // 2), len(mine) - 1)} - {(1, 1)})
+        pairs = [(a, b) for a, b in pairs if a < b]
+        k = 0
+        for a, b in pairs:
+            for mode in ("seq", "thread"):
+                storages = ["dict", "file_array"] + (["shared_memory_dict"] if mode == "seq" and (a, b) == pairs[0] else [])
+                for st in storages:
+                    kind = list(KINDS)[k % len(KINDS)]
+                    k += 1
+                    r2 = json.loads(json.dumps(req))
+                    r2["storage"] = st
+                    cases.append({"kind": "map", "req": r2, "gens": gens, "mode": mode, "tgt": mine[b], "ffn": fn,
+                                  "exc": kind, "ncalls": len(calls), "idx": calls.index(mine[b]), "local": False,
+                                  "prelude": {"tgt": mine[a], "resume": True}})
+        # shared instance only (two independent runs), the earlier failure anywhere else in the run
+        for k2, kind in enumerate(KINDS):
+            b = rng.randrange(len(calls))
+            a = rng.choice([i for i in range(len(calls)) if i != b])
+            r2 = json.loads(json.dumps(req))
+            r2["storage"] = "dict" if k2 % 2 else "file_array"
+            cases.append({"kind": "map", "req": r2, "gens": gens, "mode": "seq" if k2 < 2 else "thread",
+                          "tgt": calls[b], "ffn": calls[b].split("(", 1)[0], "exc": kind, "ncalls": len(calls),
+                          "idx": b, "local": False, "prelude": {"tgt": calls[a], "resume": False}})
+    return cases
+
+
 def generate(rng, tier, mult):
     if tier == "quick":
         cases = _gen_pipe(rng, tier, 120 * mult)
-        cases += _gen_map(rng, tier, 100 * mult, ["seq", "thread", "seqsub|threadsub"], max_calls=14,
+        cases += _gen_map(rng, tier, 85 * mult, ["seq", "thread", "seqsub|threadsub"], max_calls=14,
                           shared_share=0.04)
         cases += _gen_pool_smoke(rng, 5 * mult)
         cases += _gen_slow_earlier(rng, 1 * mult)
+        cases += _gen_histories(rng, 6 * mult, 3 * mult)
     else:
         cases = _gen_pipe(rng, tier, 220 * mult)
         cases += _gen_map(rng, tier, 38 * mult, ["seq", "thread", "proc", "procdefault", "athread", "aproc",
                                                   "seqsub", "threadsub"], max_calls=14, shared_share=0.03)
         cases += _gen_pool_smoke(rng, 10 * mult)
         cases += _gen_slow_earlier(rng, 4 * mult)
+        cases += _gen_histories(rng, 60 * mult, 25 * mult)
     return cases
 
 
@@ -579,9 +701,9 @@ def nontrivial_key(c):
     if c["ncalls"] < 2 or c["idx"] < 0:
         return None
     if c["kind"] == "pipe":
-        return ("pipe", c["p"], c["o"], c["tgt"], c["exc"], c["entry"], c["full"])
+        return ("pipe", c["p"], c["o"], c["tgt"], c["exc"], c["entry"], c["full"], c.get("prelude"))
     return ("map", c["req"]["funcs"], c["req"]["inputs"], c["req"]["storage"], c["mode"], c["tgt"], c["exc"],
-            bool(c.get("local")), bool(c.get("slow")))
+            bool(c.get("local")), bool(c.get("slow")), c.get("prelude"))
 
 
 def distribution(c):
@@ -595,6 +717,8 @@ def distribution(c):
         d["first_call"] = c["idx"] == 0
         d["local_funcs"] = bool(c.get("local"))
         d["slow_earlier_element"] = bool(c.get("slow"))
+    if c.get("prelude"):
+        d["history"] = "resume" if c["prelude"].get("resume") else "shared-exception"
     return d
 
 
